@@ -193,7 +193,7 @@ func (r *runner) note(o *Outcome) {
 	if len(c.Companion) > 0 {
 		r.res.Probes["another-detection-running-at-the-same-time"]++
 	}
-	if c.Carrier != "" && o.Stream != nil && o.Stream.Len() >= 0 {
+	if c.Carrier != "" {
 		r.res.Probes["carrier-"+c.Carrier]++
 		if c.CarrierOffset > 0 {
 			r.res.Probes["carrier-positioned-behind-a-header"]++
